@@ -189,6 +189,8 @@ def c10(rep, env):
         only(rep, lambda r: SM.check_ctr_layout(r, fb), pre("ctr.layout", "ctr.next.advance", "ctr.next.nonce-kept"))
         only(rep, lambda r: SM.check_ctr_backend(r, fb), pre("ctr.ks.advance", "par.closed-form.state"))
         only(rep, lambda r: SM.check_belt(r, fb, parts=("pos", "def", "par")), pre("pos.", "belt.ks.advance", "belt.ks.block", "par.closed-form.state"))
+        # a clone must report (and seek relative to) the same position as the original
+        IR.check_clone_bodies(rep, fb, crates={"ctr", "belt_ctr"})
     per_config(rep, env, f)
 
 
@@ -201,6 +203,8 @@ def c11(rep, env):
         only(rep, lambda r: SM.check_belt(r, fb, parts=("rem", "def", "par")), pre("rem.", "belt.ks.advance", "par.closed-form.state"))
         MI.check_ofb_unbounded(rep, fb)
         CR.check_wrapper_checks(rep, fb)
+        # a clone that forgets how many blocks were used would wrap silently
+        IR.check_clone_bodies(rep, fb, crates={"ctr", "belt_ctr"})
     per_config(rep, env, f)
 
 
